@@ -96,6 +96,17 @@ func main() {
 			rep.Count("corpus-history")
 		}
 	}
+	// scripted: the known finding C15-2 seen from C07 (a passed MsgSend from the gov account spends another open
+	// proposal's deposit; that proposal's refund then fails and the gov end blocker returns an error)
+	{
+		sc := history{Seed: 424242, Module: "eth", Stakes: []int64{20000, 30000}, Window: 3, GovQuorum: "0.4", Blocks: [][]op{
+			{{Kind: "gov_proposal", A: 2}, {Kind: "gov_proposal", A: 4}},
+			{{Kind: "gov_vote", A: 0, B: 0}, {Kind: "gov_vote", A: 1, B: 0}},
+			{}, {}, {}, {}, {},
+		}}
+		runHistory(nil, sc.Seed, sc.Module, rep, &items, &sc)
+		rep.Count("scripted-history")
+	}
 	for i := 0; i < nHist; i++ {
 		h := runHistory(r, seed*1000+int64(i), lib.ChainModules[(i+int(seed))%len(lib.ChainModules)], rep, &items, nil)
 		rep.Sample(map[string]interface{}{"module": h.Module, "stakes_fx": h.Stakes, "window": h.Window, "blocks": len(h.Blocks), "first_blocks": firstN(h.Blocks, 6)})
@@ -295,6 +306,14 @@ func runHistory(r *lib.Rand, hseed int64, module string, rep *lib.Report, items 
 			}
 		}
 		h.Blocks = append(h.Blocks, ops)
+		if os.Getenv("VERIF_DEBUG") != "" {
+			fmt.Fprintf(os.Stderr, "block %d time %s ops %+v govq=%s\n", b, c.Ctx.BlockTime().Format("15:04:05"), ops, h.GovQuorum)
+			for pid := uint64(1); pid <= uint64(proposals); pid++ {
+				if pr, err := c.App.GovKeeper.Proposals.Get(c.Ctx, pid); err == nil {
+					fmt.Fprintf(os.Stderr, "   proposal %d status %s end %v deposit %s\n", pid, pr.Status, pr.VotingEndTime, sdk.NewCoins(pr.TotalDeposit...))
+				}
+			}
+		}
 		p := snapshot(c, x, extID, accID, h.Window)
 		err := c.NextBlock()
 		if err != nil {
@@ -303,7 +322,10 @@ func runHistory(r *lib.Rand, hseed int64, module string, rep *lib.Report, items 
 			rep.Count("block=FAILED")
 			rep.Fail(lib.Failure{Kind: "monitor", What: "block processing failed: " + short(err.Error()),
 				Sig: "C07:endblock:" + failClass(err.Error()), Replay: h})
-			*items = append(*items, coqCase(p, nil, x, c, accID, extID))
+			// a halt caused by another module (e.g. the gov refund failure) is outside the crosschain end-block model
+			if cl := failClass(err.Error()); cl == "bech32-decode" || cl == "panic" {
+				*items = append(*items, coqCase(p, nil, x, c, accID, extID))
+			}
 			return h
 		}
 		nontrivial := decision(p)
@@ -481,6 +503,8 @@ func errClass(e error) string {
 
 func failClass(s string) string {
 	switch {
+	case strings.Contains(s, "insufficient funds"):
+		return "gov-refund-insufficient-funds"
 	case strings.Contains(s, "bech32"):
 		return "bech32-decode"
 	case strings.Contains(s, "PANIC"):
